@@ -33,9 +33,10 @@ import (
 type C13Step struct {
 	Doc    int  `json:"doc"`
 	Ranged bool `json:"ranged"`
-	Val    int  `json:"val"`           // marker value making the version's diagnostics unique
-	Kind   int  `json:"kind"`          // shape of the text of this version
-	Rev    int  `json:"rev,omitempty"` // >0: a trailing comment making the text unique while Kind/Val (hence the diagnostics) repeat an earlier version
+	Val    int  `json:"val"`              // marker value making the version's diagnostics unique
+	Kind   int  `json:"kind"`             // shape of the text of this version
+	Rev    int  `json:"rev,omitempty"`    // >0: a trailing comment making the text unique while Kind/Val (hence the diagnostics) repeat an earlier version
+	Reopen bool `json:"reopen,omitempty"` // the version arrives as didClose followed by didOpen with this text, not as a change
 }
 
 type C13Case struct {
@@ -348,6 +349,9 @@ func c13Check(c *C13Case) (ds []ev.Discrepancy, nontrivial bool) {
 		if !opened[st.Doc] {
 			_ = h.Open(uri, texts[i])
 			opened[st.Doc] = true
+		} else if st.Reopen {
+			_ = h.Close(uri)
+			_ = h.Open(uri, texts[i])
 		} else {
 			_ = h.Change(uri, i+2, []refclient.Change{{Text: texts[i]}})
 		}
@@ -427,6 +431,9 @@ func c13Check(c *C13Case) (ds []ev.Discrepancy, nontrivial bool) {
 		if !opened[st.Doc] {
 			_ = h.Open(uri, texts[i])
 			opened[st.Doc] = true
+		} else if st.Reopen {
+			_ = h.Close(uri)
+			_ = h.Open(uri, texts[i])
 		} else if st.Ranged {
 			// a ranged edit that replaces the whole content
 			b := refclient.New(cur[st.Doc])
@@ -569,7 +576,14 @@ func c13Run(c *C13Case) []ev.Discrepancy {
 	for _, st := range c.Steps {
 		rep = rep || st.Rev > 0
 	}
-	recC13.Case(nt, mustJSON(c), "mode:"+c.Mode, fmt.Sprintf("burst:%d", len(c.Steps)), fmt.Sprintf("settled-before:%v", c.Pre), fmt.Sprintf("repeated-diagnostics:%v", rep), fmt.Sprintf("feature-switched-on-inside-burst:%v", c.SwitchAt > 0))
+	recC13.Case(nt, mustJSON(c), "mode:"+c.Mode, fmt.Sprintf("burst:%d", len(c.Steps)), fmt.Sprintf("settled-before:%v", c.Pre), fmt.Sprintf("repeated-diagnostics:%v", rep), fmt.Sprintf("feature-switched-on-inside-burst:%v", c.SwitchAt > 0), fmt.Sprintf("close-and-reopen-inside-burst:%v", func() bool {
+		for _, st := range c.Steps {
+			if st.Reopen {
+				return true
+			}
+		}
+		return false
+	}()))
 	if nt && recC13.WantSample() {
 		recC13.Sample(c)
 	}
@@ -593,6 +607,9 @@ func genC13Steps(t *rapid.T, n int) []C13Step {
 					break
 				}
 			}
+		}
+		if i > 0 && !disabled("c13.reopen") && rapid.IntRange(0, 5).Draw(t, "reopen") == 0 {
+			st.Reopen = true
 		}
 		steps = append(steps, st)
 	}
